@@ -114,7 +114,7 @@ Inductive micro :=
 | MAwait                                        (* ... until the rename ; Unlock *)
 | MAck (status : N).                            (* the HTTP answer *)
 
-Definition enter (o : op) (l : live) : list micro :=
+Definition enter (pad : bool) (o : op) (l : live) : list micro :=
   match o with
   | OCreateTopic t =>
       if valid t then
@@ -124,7 +124,7 @@ Definition enter (o : op) (l : live) : list micro :=
       match find_topic t l with
       | None => [MAck 404%N]
       | Some tp => [MExitTopic (t_id tp) t; MDropChans (t_id tp) t; MRemoveTopic t]
-                   ++ (if eph t then [] else [MSync]) ++ [MAck 200%N]
+                   ++ (if pad && negb (eph t) then [MSync] else []) ++ [MAck 200%N]
       end
   | OPauseTopic t b =>
       match find_topic t l with
@@ -146,7 +146,7 @@ Definition enter (o : op) (l : live) : list micro :=
   | OSync => [MSync; MAck 200%N]
   end.
 
-Definition found_chan (g : N) (t c : name) (a : chan_action) (l : live) : list micro :=
+Definition found_chan (pad : bool) (g : N) (t c : name) (a : chan_action) (l : live) : list micro :=
   match get_topic g t l with
   | None => [MAck 404%N]
   | Some tp =>
@@ -155,7 +155,7 @@ Definition found_chan (g : N) (t c : name) (a : chan_action) (l : live) : list m
       | Some ch =>
           match a with
           | CADelete => [MExitChan g t (c_id ch) c; MRemoveChan g t c]
-                        ++ (if negb (eph c) && negb (eph t) then [MSync] else []) ++ [MAck 200%N]
+                        ++ (if pad && negb (eph c) && negb (eph t) then [MSync] else []) ++ [MAck 200%N]
           | CAPause b => [MFlipChan g t (c_id ch) c b; MSync; MAck 200%N]
           end
       end
@@ -242,6 +242,13 @@ Fixpoint set_thread (i : N) (p : list micro) (ths : list (N * list micro)) : lis
 Fixpoint del_thread (i : N) (ths : list (N * list micro)) : list (N * list micro) :=
   match ths with [] => [] | (k, q) :: r => if N.eqb k i then r else (k, q) :: del_thread i r end.
 
+(* a thread whose program is exhausted is gone *)
+Definition put_thread (i : N) (p : list micro) (ths : list (N * list micro)) : list (N * list micro) :=
+  match p with [] => del_thread i ths | _ => set_thread i p ths end.
+(* Topic.exit returned "exiting": DeleteExistingTopic skips the teardown it would have done *)
+Definition skip_drop (p : list micro) : list micro :=
+  match p with MDropChans _ _ :: r => r | _ => p end.
+
 Definition spawn (b : bool) (s : st) : st := if b then w_pending s (S (pending s)) else s.
 Definition lock_free (s : st) : bool := match lock s with None => true | Some _ => false end.
 
@@ -251,13 +258,14 @@ Definition drop_spawns (cs : list chan) : nat :=
 
 (* one micro-step of thread i whose program is m :: rest; a step that is not enabled
    (needs the NSQD lock while a persist job holds it) leaves the state unchanged *)
-Definition exec (s : st) (i : N) (m : micro) (rest : list micro) : st :=
-  let continue s' := w_threads s' (set_thread i rest (threads s')) in
+Definition exec (pad : bool) (s : st) (i : N) (m : micro) (rest : list micro) : st :=
+  let continue s' := w_threads s' (put_thread i rest (threads s')) in
+  let goto p s' := w_threads s' (put_thread i p (threads s')) in
   match m with
   | MEnter o =>
-      if lock_free s then w_threads s (set_thread i (enter o (live_ s)) (threads s)) else s
+      if lock_free s then goto (enter pad o (live_ s) ++ rest) s else s
   | MFindChan g t c a =>
-      w_threads s (set_thread i (found_chan g t c a (live_ s)) (threads s))
+      goto (found_chan pad g t c a (live_ s) ++ rest) s
   | MInsertTopic t =>
       if lock_free s then
         match find_topic t (live_ s) with
@@ -274,16 +282,16 @@ Definition exec (s : st) (i : N) (m : micro) (rest : list micro) : st :=
           match find_chan c (t_chans tp) with
           | Some _ => continue s
           | None =>
-              let l' := upd_topic g t (set_chans (t_chans tp ++ [mkC (next_id s) c false false])) (live_ s) in
+              let l' := upd_topic g t (fun tp' => set_chans (t_chans tp' ++ [mkC (next_id s) c false false]) tp') (live_ s) in
               continue (spawn (negb (eph c)) (w_next (w_live s l') (N.succ (next_id s))))
           end
       end
   | MExitTopic g t =>
       match get_topic g t (live_ s) with
       | Some tp =>
-          if t_exiting tp then w_threads s (set_thread i (tl rest) (threads s))
+          if t_exiting tp then goto (skip_drop rest) s
           else continue (spawn (negb (eph t)) (w_live s (upd_topic g t set_texiting (live_ s))))
-      | None => w_threads s (set_thread i (tl rest) (threads s))
+      | None => goto (skip_drop rest) s
       end
   | MDropChans g t =>
       match get_topic g t (live_ s) with
@@ -318,7 +326,7 @@ Definition exec (s : st) (i : N) (m : micro) (rest : list micro) : st :=
                   (set_thread i (MAwait :: rest) (threads s))
       else s
   | MAwait => s
-  | MAck status => w_acks (w_threads s (del_thread i (threads s))) ((i, status) :: acks s)
+  | MAck status => continue (w_acks s ((i, status) :: acks s))
   end.
 
 (* one step of the persist job; k = which unread topic to read next / the random temp
@@ -364,7 +372,7 @@ Definition persist_step (s : st) (j : job) (k : N) : st :=
           match j_owner j with
           | Some i =>
               match get_thread i (threads s1) with
-              | Some (MAwait :: rest) => w_threads s1 (set_thread i rest (threads s1))
+              | Some (MAwait :: rest) => w_threads s1 (put_thread i rest (threads s1))
               | _ => s1
               end
           | None => s1
@@ -426,7 +434,7 @@ Definition restart (s : st) : st :=
       else mkS false true [] (next_id s) [] 0 None (fs s) (hist s) (acks s) (dat_lo s) (commits s)
   end.
 
-Definition step (s : st) (e : ev) : st :=
+Definition step_ (pad : bool) (s : st) (e : ev) : st :=
   match e with
   | EKill => if up s then kill s else s
   | ERestart => if up s || broken s then s else restart s
@@ -439,7 +447,7 @@ Definition step (s : st) (e : ev) : st :=
       else s
   | EStep i =>
       match get_thread i (threads s) with
-      | Some (m :: rest) => exec s i m rest
+      | Some (m :: rest) => exec pad s i m rest
       | _ => s
       end
   | ETask =>
@@ -451,7 +459,11 @@ Definition step (s : st) (e : ev) : st :=
       match lock s with Some j => persist_step s j k | None => s end
   end.
 
+(* the code as it is now: persistAfterDelete present (fix d8e666b) *)
+Definition step : st -> ev -> st := step_ true.
 Definition run (s : st) (evs : list ev) : st := fold_left step evs s.
+(* the code before the fix (kept to show the old witness) *)
+Definition run_old (s : st) (evs : list ev) : st := fold_left (step_ false) evs s.
 
 (* ---------------------------------------------------------------- what the theorems talk about *)
 Definition idle (s : st) : Prop :=
